@@ -71,7 +71,7 @@ def _run(scratch, steps, choices, variant):
     return qsrun.run_script(scratch, steps, choices, run_cls=R)
 
 
-DOWNTIMES = [0, 0, 0, 7, 200, 4000]
+DOWNTIMES = [0, 0, 0, 7, 200, 4000, 0, 100000]  # seconds without a server (the last one: more than a day)
 
 
 def with_restarts(steps, positions, salt=0):
